@@ -357,6 +357,7 @@ type Response struct {
 	Hits     []BackendHit // what reached any backend during this request
 	Calls    []AuthCall   // back-channel calls made during this request
 	Panic    interface{}
+	Interim  []int // status codes of the interim (1xx) responses that preceded the final one (DoRaw only)
 }
 
 // Served reports whether upstream content reached the client or a backend was touched.
@@ -479,13 +480,25 @@ func (e *ProxyEnv) DoRaw(raw string) (*Response, error) {
 	if _, err := io.WriteString(conn, raw); err != nil {
 		return nil, err
 	}
-	res, err := http.ReadResponse(bufio.NewReader(conn), nil)
-	if err != nil {
-		return nil, err
+	br := bufio.NewReader(conn)
+	var interim []int
+	var res *http.Response
+	for {
+		// interim (1xx, other than 101) responses are skipped the way any HTTP client skips them; the
+		// final response is what the client acts on
+		res, err = http.ReadResponse(br, nil)
+		if err != nil {
+			return nil, err
+		}
+		if res.StatusCode >= 100 && res.StatusCode < 200 && res.StatusCode != 101 && len(interim) < 8 {
+			interim = append(interim, res.StatusCode)
+			continue
+		}
+		break
 	}
 	body, _ := io.ReadAll(res.Body)
 	res.Body.Close()
-	resp := &Response{Status: res.StatusCode, Header: res.Header, Body: string(body), Location: res.Header.Get("Location"), Cookies: res.Cookies()}
+	resp := &Response{Interim: interim, Status: res.StatusCode, Header: res.Header, Body: string(body), Location: res.Header.Get("Location"), Cookies: res.Cookies()}
 	names := make([]string, 0, len(e.Backends))
 	for n := range e.Backends {
 		names = append(names, n)
